@@ -284,6 +284,16 @@ class State(object):
         return oid
 
 
+def add_assume(st, c):
+    """record that the 1-bit term c holds on this path (conjunctions are split)"""
+    if c.op == "const":
+        return
+    if c.op == "and1":
+        st.assume = st.assume + tuple(x for x in c.args if x not in st.assume)
+    elif c not in st.assume:
+        st.assume = st.assume + (c,)
+
+
 class Frame(object):
     __slots__ = ("body", "locs", "cfg", "depth", "active", "progress", "nest", "inloop", "iters")
 
@@ -335,6 +345,8 @@ class Evaluator(object):
         self.loop_counter = 0
         self.pure_memo = {}
         self.pure_summ = {}
+        self.static_reads = []
+        self.dead_ends = []
 
     # -------------------------------------------------------------- types
     def ty(self, i):
@@ -590,10 +602,16 @@ class Evaluator(object):
                     return Ref(oid, (), (0, v.n if isinstance(v, ArrV) else None))
                 return Ref(oid, ())
             if "static" in info:
-                return OpaqueV(tyid, "static:" + info["static"])
+                oid = ("static", info["static"])
+                if oid not in st.objs:
+                    st.objs[oid] = OpaqueV(t.get("to"), "static:" + info["static"])
+                return Ref(oid, ())
             raise Unsupported("pointer constant %r" % (info,))
         if "mem" in c:
-            return self.decode_bytes(bytes.fromhex(c["mem"]["bytes"]), tyid)
+            try:
+                return self.decode_bytes(bytes.fromhex(c["mem"]["bytes"]), tyid)
+            except Unsupported:
+                return OpaqueV(tyid, "const:" + c["mem"]["bytes"][:16])
         if "slice" in c:
             b = bytes.fromhex(c["slice"]["bytes"])
             n = c.get("meta", len(b))
@@ -811,6 +829,11 @@ class Evaluator(object):
                 return PrimV("dyn", (inner, rv[4]["vtable"], rv[4]["dyn_trait"], v))
             return self.cast(st, fr, rv[1], v, self.operand_ty(fr, rv[2]), rv[3])
         if k == "ref" or k == "raw":
+            pl = rv[2]
+            if len(pl[1]) == 1 and pl[1][0][0] == "d":
+                base = self.read_path(st, st.objs[fr.locs[pl[0]]], ())
+                if isinstance(base, PrimV) and base.kind in ("byteview", "dyn", "castptr"):
+                    return base  # reborrow of a library pointer object
             r, ty = self.resolve(st, fr, rv[2])
             mut = rv[1] is True or (k == "raw" and "Mut" in str(rv[1]))
             return Ref(r.obj, r.path, r.win, mut)
@@ -1008,13 +1031,15 @@ class Evaluator(object):
                 exp = T.TRUE if t[2] else T.FALSE
                 self.record_assert(st, fr, bb, t, cond, exp)
                 if cond.op == "const" and cond is not exp:
+                    self.dead_ends.append(("assert", body["key"], bb, t[3], t[5][0]))
                     return self.group_outs(pending, entry_assume)  # always fails: this path panics
                 if cond.op != "const":
-                    st.assume = st.assume + ((cond if t[2] else T.bnot(cond)),)
+                    add_assume(st, cond if t[2] else T.bnot(cond))
                 bb = t[4]
             elif k == "call":
                 nxt = self.do_call(st, fr, bb, t)
                 if nxt is None:
+                    self.dead_ends.append(("call", body["key"], bb, (t[1].get("rpath") or t[1].get("path")), t[5][0]))
                     return self.group_outs(pending, entry_assume)
                 bb = nxt
             elif k == "switch":
@@ -1053,13 +1078,13 @@ class Evaluator(object):
                         if c is T.FALSE:
                             continue
                         s2 = st.fork()
-                        s2.assume = s2.assume + (c,)
+                        add_assume(s2, c)
                         for o in self.run(s2, fr, tb, sub_stops, pred=bb):
                             outs.append(Out(T.and1([c, o.cond]), o.st, o.how, o.at))
                     cother = T.and1([T.bnot(c) for c in conds])
                     if cother is not T.FALSE and not self._is_unreachable_block(blocks, other):
                         s2 = st.fork()
-                        s2.assume = s2.assume + (cother,)
+                        add_assume(s2, cother)
                         for o in self.run(s2, fr, other, sub_stops, pred=bb):
                             outs.append(Out(T.and1([cother, o.cond]), o.st, o.how, o.at))
                 finally:
